@@ -430,6 +430,7 @@ func generate(rng *rand.Rand, tier string) []interface{} {
 		ins = append(ins, idTable(rng, false)...)
 		ins = append(ins, idTable(rng, true)...)
 		ins = append(ins, afterGenuine(rng)...)
+		ins = append(ins, rosterTable(rng, 4, 2)...)
 		return ins
 	}
 	budget := 400
@@ -453,6 +454,25 @@ func generate(rng *rand.Rand, tier string) []interface{} {
 	ins = append(ins, idTable(rng, false)...)
 	for i := 0; i < 3; i++ {
 		ins = append(ins, idTable(rng, true)...)
+	}
+	ins = append(ins, rosterTable(rng, 40, 1)...)
+	return ins
+}
+
+// rosterTable: the sender x peer table on trees whose nodes' RosterIndex values disagree with the order
+// of the tree's roster (reordered roster / hand-built nodes with another index).  The host of a node is
+// TreeNode.ServerIdentity; the position in the roster decides nothing.  One case in `one` is kept.
+func rosterTable(rng *rand.Rand, absent, one int) []interface{} {
+	var ins []interface{}
+	trees := []nodeh.TreeSpec{nd(0, leaf(1), leaf(2)), nd(0, nd(1, leaf(2)), leaf(3))}
+	for _, x := range exhaustive(rng, trees, &absent, 1) {
+		in := x.(input)
+		if rng.Intn(one) != 0 {
+			continue
+		}
+		in.RosterRot = []int{1, 2, -1, -2}[rng.Intn(4)]
+		in.Detail += "/roster-order"
+		ins = append(ins, in)
 	}
 	return ins
 }
@@ -678,8 +698,15 @@ func corpus() []interface{} {
 		}
 	}
 	threeCh.Class = "table/sender-member/channel-agg"
+	// the tree's roster lists the servers in another order than the nodes' RosterIndex values say
+	// (NewTree with a reordered roster): child 2's server, which stands at child 1's roster position,
+	// sends "as child 1"; child 1's own answer is the one that counts
+	reord := input{Scenario: nodeh.Scenario{Tree: nd(0, leaf(1), leaf(2)), Insts: []int{0}, RosterRot: 1, Msgs: []nodeh.Msg{
+		{Inst: 0, From: 1, Peer: 2, Wire: -1, Type: nodeh.TH1, Payload: 1, Route: "process"}, fence(0, 100),
+		{Inst: 0, From: 1, Peer: 1, Wire: -1, Type: nodeh.TC1, Payload: 2, Route: "process"}, fence(0, 101)}},
+		Class: "table/sender-member/handler-single", Detail: "peer-othermember/roster-order"}
 	return []interface{}{
-		three, threeCh,
+		three, threeCh, reord,
 		foreign, both,
 		// a member claiming to be the root over a real TCP connection is refused
 		tcp,
@@ -738,6 +765,8 @@ func main() {
 			"a seeded part of the same table for 5-6 node trees, seeded multi-message scenarios, the sender x peer table of a 3-node tree on servers with real TCP sockets, " +
 			"the table of forged declared-ID fields (envelope identity = own key + the victim's / the receiver's / a zero / a random ID; in-process and in the TCP handshake of an attacker's router), " +
 			"the three-step sequence genuine answer waiting / forged message naming the same child / completion, for aggregated handlers and channels; " +
+			"the sender x peer table (a seeded half) on a 3-node and a 4-node tree whose nodes' RosterIndex values disagree with the order of the tree's roster " +
+			"(roster rotated after the nodes were made / hand-built nodes carrying another index; the host of a node is TreeNode.ServerIdentity, the model's tree has no roster order); " +
 			"and the same table with a receiver that learns the tree only through the message (parked, tree requested from the envelope's peer, dispatched on arrival); " +
 			"routes: Overlay.Process, Overlay.TransmitMsg, a router connection of the (byzantine) peer's server (in-memory transport or TCP); " +
 			"sender-less messages (they kill the pinned code's process) are a seeded sample; distinct = distinct Coq case term",
